@@ -3,6 +3,8 @@ package sym
 import (
 	"fmt"
 	"sort"
+	"strings"
+	"time"
 )
 
 // Inputs is a concrete assignment of the harness's nondeterministic inputs.
@@ -104,7 +106,22 @@ func (e *Engine) modelInputs(st *State, extra ...*Term) (Inputs, Result) {
 		add(le.Len)
 	}
 	conj := append(st.pc[:len(st.pc):len(st.pc)], extra...)
-	res, m := e.solver.CheckModel(conj, vars)
+	// prefer models whose clock readings are close to the real time of this run, so that they replay natively
+	var prefs []*Term
+	for _, le := range st.log {
+		if strings.HasPrefix(le.Name, "now.sec") && len(le.T) == 1 {
+			real := uint64(time.Now().Unix())
+			prefs = append(prefs, e.tb.Cmp(OpULe, e.tb.Const(le.T[0].W, real), le.T[0]), e.tb.Cmp(OpULe, le.T[0], e.tb.Const(le.T[0].W, real+1800)))
+		}
+	}
+	var res Result
+	var m map[string]uint64
+	if len(prefs) > 0 {
+		res, m = e.solver.CheckModel(append(conj[:len(conj):len(conj)], prefs...), vars)
+	}
+	if res != Sat {
+		res, m = e.solver.CheckModel(conj, vars)
+	}
 	if res != Sat {
 		return nil, res
 	}
